@@ -117,7 +117,8 @@ func main() {
 		if a == "--replay" && i+1 < len(os.Args) {
 			replay(run, self, tmp, os.Args[i+1])
 			os.RemoveAll(tmp)
-			run.Finish("replay of one witness", "record_cases", "records", 0)
+			run.Count("replay_evaluations", run.Get("record_cases")+run.Get("snapshot_reopens"))
+			run.Finish("replay of one witness", "replay_evaluations", "records", 0)
 		}
 	}
 
